@@ -1,4 +1,5 @@
 import Driver.Common
+import Driver.C01
 import LinkVerif.Model.Protocol
 
 namespace Driver.C02
@@ -43,15 +44,17 @@ def checkHist (toks : List String) : String :=
       | none => base
   | _, _, _ => "bad-op"
 
-def step (s : Unit) (toks : List String) : Unit × String :=
+/-- `ns` ops (step-level tie with the node model `Model.Node`) are answered by the C01 driver's code -/
+def step (s : Driver.C01.NS) (toks : List String) : Driver.C01.NS × String :=
   match toks with
-  | "case" :: _ => (s, "ok")
-  | "sim" :: _ => (s, "ok")
+  | "case" :: _ => (Driver.C01.NS.init, "ok")
+  | "sim" :: _ => ({ s with sim := true }, "ok")
   -- the claim itself: no correct node dies, is killed after a commit, or votes for an invalid block
   | "diag" :: _ => (s, "dead=0 killed=0 badvotes=0")
   | "hist" :: _ => (s, checkHist toks)
+  | "ns" :: _ => Driver.C01.nsStep s toks
   | _ => (s, "bad-op")
 
-def machine : Machine := { σ := Unit, init := (), step := step }
+def machine : Machine := { σ := Driver.C01.NS, init := Driver.C01.NS.init, step := step }
 
 end Driver.C02
